@@ -96,29 +96,36 @@ theorem specInv_specStep (a : ASt) (f : Nat → Bool) (op : Op) (h : SpecInv a) 
   | getKey _ => exact h
   | getKeys => exact h
   | getKeysWithData => exact h
-  | restartRoutine _ => exact h
-  | restartAll => exact h
+  | restartRoutine _ _ => exact h
+  | restartAll _ => exact h
   | setContext c r => exact h
-  | resetRoutine k' =>
-    intro k hin
-    simp only [specStep, renew, upd, ASt.inSet] at hin ⊢
+  | resetRoutine k' cs =>
+    simp only [specStep]
     split
-    · rename_i hk; subst hk
-      simp only [if_true, renSt, renCtor] at hin ⊢
+    · intro k hin
+      simp only [renew, upd, ASt.inSet] at hin ⊢
       split
-      · rfl
-      · rename_i hn; simp [hn, KSt.inSet] at hin
-    · rename_i hk; simp only [hk, if_false] at hin; exact h k hin
-  | resetAll =>
+      · rename_i hk; subst hk
+        simp only [if_true, renSt, renCtor] at hin ⊢
+        split
+        · rfl
+        · rename_i hn; simp [hn, KSt.inSet] at hin
+      · rename_i hk; simp only [hk, if_false] at hin; exact h k hin
+    · exact h
+  | resetAll cs =>
     intro k hin
-    have hst : (specStep a f .resetAll).st k = renSt a k := rfl
-    have hn : (specStep a f .resetAll).nctor k = renCtor a k := rfl
+    have hst : (specStep a f (.resetAll cs)).st k = if specMatch a cs k then renSt a k else a.st k := rfl
+    have hn : (specStep a f (.resetAll cs)).nctor k = if specMatch a cs k then renCtor a k else a.nctor k := rfl
     rw [hst, hn]
-    have hin' : (renSt a k).inSet = true := hin
-    unfold renSt renCtor at *
-    cases hi : a.inSet k with
-    | true => simp [KSt.data]
-    | false => simp [hi, KSt.inSet] at hin'
+    have hin' : (if specMatch a cs k then renSt a k else a.st k).inSet = true := hin
+    cases hm : specMatch a cs k with
+    | false => simp only [hm, Bool.false_eq_true, if_false] at hin' ⊢; exact h k hin'
+    | true =>
+      simp only [hm, if_true] at hin' ⊢
+      unfold renSt renCtor at *
+      cases hi : a.inSet k with
+      | true => simp [KSt.data]
+      | false => simp [hi, KSt.inSet] at hin'
   | addKeyRef k => exact specInv_request a k h
   | release r =>
     simp only [specStep, specRelease]
